@@ -232,4 +232,142 @@ theorem largestCluster_conn {near : Nat → Nat → Bool}
     simp only [Option.getD_some]
     exact components_conn hsym _ _ [] (by intro c hc; cases hc) c (lastMaxBy_mem h)
 
+
+/-! ### Fuel sufficiency of the three flood-fill loops
+
+The loops of `largest_cluster` are modelled by structural recursion on fuel that is *derived
+from the data* (`points.len() - j`, `points.len() + cluster.len() - i`, `points.len()`).
+The fuel is sufficient: any additional fuel gives the same result, i.e. each loop has left
+through its own exit condition (`j >= points.len()`, `i >= cluster.len()`, `pop() == None`)
+before the fuel ran out. -/
+
+theorem scan_fuel (c : Nat → Bool) (k : Nat) :
+    ∀ (fuel j : Nat) (s : List Nat × List Nat), s.1.length - j ≤ fuel →
+      scan c (fuel + k) j s = scan c fuel j s := by
+  intro fuel
+  induction fuel with
+  | zero =>
+    intro j s h
+    cases k with
+    | zero => rfl
+    | succ k =>
+      have hj : ¬ j < s.1.length := by omega
+      simp only [Nat.zero_add]
+      unfold scan
+      simp [hj]
+  | succ fuel ih =>
+    intro j s h
+    rw [show fuel + 1 + k = (fuel + k) + 1 by omega]
+    unfold scan
+    by_cases hj : j < s.1.length
+    · simp only [hj, dite_true]
+      by_cases hc : c s.1[j] = true
+      · simp only [hc, if_true]
+        apply ih
+        have := swapRemove_length hj
+        simp only
+        omega
+      · simp only [hc, Bool.false_eq_true, if_false]
+        apply ih; omega
+    · simp only [hj, dite_false]
+
+theorem scan_len2 (c : Nat → Bool) :
+    ∀ (fuel j : Nat) (s : List Nat × List Nat), s.2.length ≤ (scan c fuel j s).2.length := by
+  intro fuel
+  induction fuel with
+  | zero => intro j s; exact Nat.le_refl _
+  | succ fuel ih =>
+    intro j s
+    unfold scan
+    by_cases hj : j < s.1.length
+    · simp only [hj, dite_true]
+      by_cases hc : c s.1[j] = true
+      · simp only [hc, if_true]
+        have := ih j (swapRemove s.1 j, s.2 ++ [s.1[j]])
+        simp only [List.length_append, List.length_cons, List.length_nil] at this
+        omega
+      · simp only [hc, Bool.false_eq_true, if_false]; exact ih (j + 1) s
+    · simp only [hj, dite_false]; exact Nat.le_refl _
+
+theorem scan_total_len (c : Nat → Bool) (fuel j : Nat) (s : List Nat × List Nat) :
+    (scan c fuel j s).1.length + (scan c fuel j s).2.length = s.1.length + s.2.length := by
+  have := (scan_perm c fuel j s).length_eq
+  simpa using this
+
+theorem grow_fuel (near : Nat → Nat → Bool) (k : Nat) :
+    ∀ (fuel i : Nat) (s : List Nat × List Nat), s.1.length + s.2.length - i ≤ fuel →
+      grow near (fuel + k) i s = grow near fuel i s := by
+  intro fuel
+  induction fuel with
+  | zero =>
+    intro i s h
+    cases k with
+    | zero => rfl
+    | succ k =>
+      have hi : ¬ i < s.2.length := by omega
+      simp only [Nat.zero_add]
+      unfold grow
+      simp [hi]
+  | succ fuel ih =>
+    intro i s h
+    rw [show fuel + 1 + k = (fuel + k) + 1 by omega]
+    unfold grow
+    by_cases hi : i < s.2.length
+    · simp only [hi, dite_true]
+      apply ih
+      have := scan_total_len (near s.2[i]) s.1.length 0 s
+      omega
+    · simp only [hi, dite_false]
+
+theorem grow_len2 (near : Nat → Nat → Bool) :
+    ∀ (fuel i : Nat) (s : List Nat × List Nat), s.2.length ≤ (grow near fuel i s).2.length := by
+  intro fuel
+  induction fuel with
+  | zero => intro i s; exact Nat.le_refl _
+  | succ fuel ih =>
+    intro i s
+    unfold grow
+    by_cases hi : i < s.2.length
+    · simp only [hi, dite_true]
+      exact Nat.le_trans (scan_len2 _ _ _ s) (ih (i + 1) _)
+    · simp only [hi, dite_false]; exact Nat.le_refl _
+
+theorem grow_total_len (near : Nat → Nat → Bool) (fuel i : Nat) (s : List Nat × List Nat) :
+    (grow near fuel i s).1.length + (grow near fuel i s).2.length = s.1.length + s.2.length := by
+  have := (grow_perm near fuel i s).length_eq
+  simpa using this
+
+theorem components_fuel (near : Nat → Nat → Bool) (k : Nat) :
+    ∀ (fuel : Nat) (pts : List Nat) (out : List (List Nat)), pts.length ≤ fuel →
+      components near (fuel + k) pts out = components near fuel pts out := by
+  intro fuel
+  induction fuel with
+  | zero =>
+    intro pts out h
+    have : pts = [] := List.eq_nil_of_length_eq_zero (by omega)
+    subst this
+    cases k with
+    | zero => rfl
+    | succ k => simp [components]
+  | succ fuel ih =>
+    intro pts out h
+    rw [show fuel + 1 + k = (fuel + k) + 1 by omega]
+    unfold components
+    cases hl : pts.getLast? with
+    | none => rfl
+    | some p =>
+      simp only
+      apply ih
+      have h1 := grow_total_len near pts.length 0 (pts.dropLast, [p])
+      have h2 := grow_len2 near pts.length 0 (pts.dropLast, [p])
+      simp only [List.length_dropLast, List.length_cons, List.length_nil] at h1 h2
+      omega
+
+/-- `largest_cluster` does not depend on fuel beyond `points.len()`. -/
+theorem largestCluster_fuel (near : Nat → Nat → Bool) (pts : List Nat) (k : Nat) :
+    (lastMaxBy List.length (components near (pts.length + k) pts [])).getD []
+      = largestCluster near pts := by
+  unfold largestCluster
+  rw [components_fuel near k pts.length pts [] (Nat.le_refl _)]
+
 end AlphaG.Cluster
